@@ -2,19 +2,21 @@
    generic development RoundTripML.v.
 
    The classes of placeable expressions are indexed by their nesting depth d (eokd d):
-     depth 0:   a simple inline expression (ParseLemmas.simple_inline: a reference without call arguments or a
-                literal);
-     depth d+1: a simple inline expression, a placeable that holds an expression of depth d, or a select
-                expression whose selector is a string literal, a number literal or a variable reference, with
+     depth 0:   an inline expression of CallArgs.binline (a reference, a literal, a function reference or a term
+                reference with call arguments of CallArgs.args_ok);
+     depth d+1: one of these, a placeable that holds an expression of depth d, or a select expression whose
+                selector is of CallArgs.bsel (a string literal, a number literal, a variable reference, a function
+                reference with call arguments, a term attribute with or without call arguments), with
                 exactly one default variant, well-formed keys, and variant values that are patterns of
                 RoundTripML.ml_pattern with placeables of depth d.
+   (eoks / etexts: the depth-0 class without call arguments, kept for SerializerML.v.)
      1. the classes and their layouts (etextd d)
      2. get_placeable on a layout (by induction on the depth, with RoundTripML.get_pattern_ml for the variants)
      3. render prints a layout; the expressions are well-formed and in joined form
      4. parse (render cs t)                                                                          *)
 From FluentV Require Import Base.Bytes Base.Outcome Base.Utf8 Base.Utf8Facts.
 From FluentV Require Import Syntax.Ast Syntax.ParserModel Syntax.Render Syntax.TreeNorm Syntax.ParseLemmas Syntax.RoundTrip
-  Syntax.EntryLoop Syntax.RoundTripML.
+  Syntax.EntryLoop Syntax.RoundTripML Syntax.CallArgs.
 From Coq Require Import Lia ZifyBool ZifyNat ZifyN.
 
 Arguments N.add : simpl never.
@@ -94,11 +96,19 @@ Qed.
 (* ---------------------------------------------------------------------------------------------- *)
 (* 1. The classes                                                                                   *)
 
-Definition eok0 (e : expression) : bool := match e with Inline i => simple_inline i | _ => false end.
+(* depth 0: an inline expression of CallArgs.binline (a simple one, or a function reference / a term reference
+   with simple call arguments) and its layouts CallArgs.itext *)
+Definition eok0 (e : expression) : bool := match e with Inline i => binline i | _ => false end.
 Inductive etext0 : expression -> bytes -> Prop :=
-| et0 i : simple_inline i = true -> etext0 (Inline i) (inline_text i).
+| et0 i X : binline i = true -> itext i X -> etext0 (Inline i) X.
 
-(* selectors: a string literal, a number literal, a variable reference *)
+(* the same with simple inline expressions only (used by SerializerML.v) *)
+Definition eoks (e : expression) : bool := match e with Inline i => simple_inline i | _ => false end.
+Inductive etexts : expression -> bytes -> Prop :=
+| ets i : simple_inline i = true -> etexts (Inline i) (inline_text i).
+
+(* the selectors that are simple inline expressions: a string literal, a number literal, a variable reference
+   (all selectors: CallArgs.bsel) *)
 Definition sel_ok (i : inline) : bool :=
   match i with StringLiteral _ | NumberLiteral _ | VariableReference _ => simple_inline i | _ => false end.
 Definition key_ok (k : variant_key) : bool :=
@@ -115,10 +125,10 @@ Inductive variants_layout (vl : list pattern_element -> bytes -> Prop) : list va
 
 (* the text of a select expression: selector, blank, "->", spaces, line end, blanks, the variants *)
 Inductive select_layout (vl : list pattern_element -> bytes -> Prop) : expression -> bytes -> Prop :=
-| sell sel vs b1' j x0 W0 VS :
-    all_blank b1' -> (ends_with_id_char (inline_text sel) = true -> b1' <> []) -> is_eol_bytes x0 -> all_blank W0 ->
+| sell sel vs Xs b1' j x0 W0 VS :
+    seltext sel Xs -> all_blank b1' -> (ends_with_id_char Xs = true -> b1' <> []) -> is_eol_bytes x0 -> all_blank W0 ->
     variants_layout vl vs VS ->
-    select_layout vl (Select sel vs) (inline_text sel ++ b1' ++ [45; 62]%N ++ sp j ++ x0 ++ W0 ++ VS).
+    select_layout vl (Select sel vs) (Xs ++ b1' ++ [45; 62]%N ++ sp j ++ x0 ++ W0 ++ VS).
 
 Definition variant_ok (eok : expression -> bool) (v : variant) : bool :=
   match v with Variant k p _ => key_ok k && ml_pattern eok p end.
@@ -129,8 +139,8 @@ Fixpoint eokd (d : nat) (e : expression) : bool :=
   | S d' =>
       match e with
       | Inline (Placeable e1) => eokd d' e1
-      | Inline i => simple_inline i
-      | Select sel vs => sel_ok sel && Nat.eqb (count_defaults vs) 1 && forallb (variant_ok (eokd d')) vs
+      | Inline i => binline i
+      | Select sel vs => bsel sel && Nat.eqb (count_defaults vs) 1 && forallb (variant_ok (eokd d')) vs
       end
   end.
 
@@ -415,6 +425,31 @@ Proof.
       unfold ret. f_equal. cbn [length]. lia.
 Qed.
 
+(* all selectors *)
+Lemma get_selector_b sel Xs b1' t p n :
+  bsel sel = true -> seltext sel Xs -> all_blank b1' -> (ends_with_id_char Xs = true -> b1' <> []) ->
+  at_ bs p (Xs ++ b1' ++ 45%N :: t) -> length Xs + 6 <= n ->
+  get_inline_expression bs n false p = Ok sel (length Xs + (if sel_eats sel then length b1' else 0) + p).
+Proof.
+  intros Hsel HX Hb Hid H Hn. pose proof (seltext_ends_id sel Xs Hsel HX) as Hends. revert Hsel Hends H Hn Hid.
+  destruct HX as [i Hi | id ca b A Hb0 HA | id a | id a ca b A Hb0 HA]; intros Hsel Hends H Hn Hid.
+  - assert (Hso : sel_ok i = true /\ sel_eats i = false).
+    { destruct i as [s | v | id args | id att | id [a|] [ca|] | id | e]; try discriminate Hsel; try discriminate Hi;
+        split; try reflexivity; exact Hi. }
+    destruct Hso as [Hso ->]. rewrite Nat.add_0_r. apply (get_selector i b1' t p n Hso Hb Hid H). lia.
+  - cbn [bsel] in Hsel. apply andb_prop in Hsel as [Hcal Hca]. cbn [sel_eats]. rewrite Nat.add_0_r.
+    apply (get_inline_function bs id ca b A (b1' ++ 45%N :: t) p n Hcal Hca Hb0 HA); [rewrite <- !app_assoc in H; exact H|].
+    rewrite !app_length in Hn. lia.
+  - cbn [bsel] in Hsel. apply andb_prop in Hsel as [Hsel _]. apply andb_prop in Hsel as [Hidw Ha]. cbn [sel_eats].
+    apply (get_inline_term_attr bs id a b1' t p n Hidw Ha Hb (Hid (Hends eq_refl))); [|lia].
+    cbn [app] in H. rewrite <- !app_assoc in H. cbn [app] in H. rewrite <- ?app_assoc in H. exact H.
+  - cbn [bsel] in Hsel. apply andb_prop in Hsel as [Hsel Hca]. apply andb_prop in Hsel as [Hidw Ha]. cbn [sel_eats]. rewrite Nat.add_0_r.
+    rewrite (get_inline_term_args bs id (Some a) ca b A (b1' ++ 45%N :: t) p n Hidw Ha Hca Hb0 HA).
+    + f_equal.
+    + cbn [app] in H. rewrite <- !app_assoc in H. cbn [app] in H. rewrite <- ?app_assoc in H. exact H.
+    + cbn [length] in Hn. rewrite !app_length in Hn. cbn [length] in Hn. rewrite !app_length in Hn. lia.
+Qed.
+
 (* unfolding equations of the mutual fixpoint *)
 Lemma get_placeable_S n :
   get_placeable bs (S n) =
@@ -462,20 +497,16 @@ Proof. reflexivity. Qed.
 
 (* ---- a placeable with a select expression, from behind its "{" ---- *)
 Lemma get_expression_select sel vs X b2 rest p n :
-  sel_ok sel = true -> count_defaults vs = 1 -> forallb (variant_ok eok) vs = true ->
+  bsel sel = true -> count_defaults vs = 1 -> forallb (variant_ok eok) vs = true ->
   select_layout (ml_value_layout etext) (Select sel vs) X -> all_blank b2 ->
   at_ bs p (X ++ b2 ++ 125%N :: rest) -> 3 * length (X ++ b2 ++ 125%N :: rest) + 7 <= n ->
   exists vs', get_expression bs n p = Ok (Select sel vs') (length (X ++ b2) + p) /\ Forall2 vrel vs' vs.
 Proof.
   intros Hsel Hcnt Hvs HX Hb2 H Hn.
-  inversion HX as [sel0 vs0 b1' j x0 W0 VS Hb1' Hid Hx0 HW0 HVS E1 E2]; subst sel0 vs0 X. clear HX.
+  inversion HX as [sel0 vs0 S0 b1' j x0 W0 VS HS0x Hb1' Hid Hx0 HW0 HVS E1 E2]; subst sel0 vs0 X. clear HX.
   assert (Hvne : vs <> []) by (intros ->; discriminate Hcnt).
   pose proof (variants_layout_tail _ vs VS b2 HVS Hvne Hb2) as HVS'.
-  set (S0 := inline_text sel) in *.
-  assert (HS0 : 1 <= length S0).
-  { unfold S0. destruct sel; try discriminate Hsel; cbn [inline_text length]; try lia.
-    cbn [sel_ok simple_inline] in Hsel. destruct (wf_number_shape _ Hsel) as [neg ip f Hi1 _ _].
-    destruct ip; [congruence|]. destruct neg; cbn [app length]; lia. }
+  destruct (seltext_head sel S0 (b1' ++ 45%N :: 62%N :: sp j ++ x0 ++ W0 ++ (VS ++ b2) ++ 125%N :: rest) Hsel HS0x) as [_ HS0].
   assert (Hx0len : 1 <= length x0) by (destruct Hx0 as [-> | ->]; cbn; lia).
   assert (H1 : at_ bs p (S0 ++ b1' ++ 45%N :: 62%N :: sp j ++ x0 ++ W0 ++ (VS ++ b2) ++ 125%N :: rest)).
   { rewrite <- !app_assoc in H. cbn [app] in H. rewrite <- ?app_assoc in H.
@@ -486,9 +517,15 @@ Proof.
   { repeat (rewrite app_length || rewrite sp_length || cbn [length]). lia. }
   rewrite Hlen in Hn. clear Hlen.
   destruct n as [|n2]; [lia|]. rewrite get_expression_S.
-  step (get_selector sel b1' _ _ n2 Hsel Hb1' Hid H1 ltac:(fold S0; lia)). fold S0.
+  step (get_selector_b sel S0 b1' _ _ n2 Hsel HS0x Hb1' Hid H1 ltac:(lia)).
   pose proof (at_app _ _ _ _ H1) as H2.
-  step (skip_blank_blank bs _ b1' _ H2 Hb1' ltac:(reflexivity)).
+  assert (Hsk : skip_blank bs (length S0 + (if sel_eats sel then length b1' else 0) + p) = Ok tt (length b1' + (length S0 + p))).
+  { destruct (sel_eats sel).
+    - pose proof (at_app _ _ _ _ H2) as H2'.
+      replace (length b1' + (length S0 + p)) with (length S0 + length b1' + p) in H2' |- * by lia.
+      apply (skip_blank_none bs _ _ H2'). reflexivity.
+    - rewrite Nat.add_0_r. apply (skip_blank_blank bs _ b1' _ H2 Hb1'). reflexivity. }
+  step Hsk.
   pose proof (at_app _ _ _ _ H2) as H3.
   rewrite bind_get_ptr. rewrite (at_is_byte _ _ 45 _ H3). change (N.eqb 45 45) with true.
   rewrite (at_is_byte _ _ 62 _ (at_cons _ _ _ _ H3)). change (N.eqb 62 62) with true. cbn [negb orb].
@@ -501,7 +538,7 @@ Proof.
                    | StringLiteral _ | NumberLiteral _ | VariableReference _ | FunctionReference _ _ => ret tt
                    | Placeable _ => error_here ExpectedSimpleExpressionAsSelector
                    end) g q = g tt q)
-    by (intros B0 g q; destruct sel; try discriminate Hsel; reflexivity).
+    by (intros B0 g q; destruct sel as [? | ? | ? ? | ? ? | ? [?|] ? | ? | ?]; try discriminate Hsel; reflexivity).
   rewrite Hchk. rewrite bind_advance.
   pose proof (at_cons _ _ _ _ (at_cons _ _ _ _ H3)) as H4.
   assert (Hhx : head_not is_space (x0 ++ W0 ++ (VS ++ b2) ++ 125%N :: rest)) by (destruct Hx0 as [-> | ->]; reflexivity).
@@ -523,14 +560,14 @@ Proof.
 Qed.
 
 Lemma get_placeable_select sel vs X b1 b2 rest p n :
-  sel_ok sel = true -> count_defaults vs = 1 -> forallb (variant_ok eok) vs = true ->
+  bsel sel = true -> count_defaults vs = 1 -> forallb (variant_ok eok) vs = true ->
   select_layout (ml_value_layout etext) (Select sel vs) X -> all_blank b1 -> all_blank b2 ->
   at_ bs p (b1 ++ X ++ b2 ++ 125%N :: rest) -> 3 * length (b1 ++ X ++ b2 ++ 125%N :: rest) + 8 <= n ->
   exists vs', get_placeable bs n p = Ok (Select sel vs') (S (length (b1 ++ X ++ b2) + p)) /\ Forall2 vrel vs' vs.
 Proof.
   intros Hsel Hcnt Hvs HX Hb1 Hb2 H Hn.
   assert (Hhead : no_blank_head (X ++ b2 ++ 125%N :: rest)).
-  { inversion HX; subst. rewrite <- !app_assoc. apply (sel_no_blank_head sel _ Hsel). }
+  { inversion HX as [sel0 vs0 S0 c1 j x0 W0 VS HS0x _ _ _ _ _ E1 E2]; subst. rewrite <- !app_assoc. apply (seltext_head sel S0 _ Hsel HS0x). }
   destruct n as [|n1]; [lia|]. rewrite get_placeable_S.
   step (skip_blank_blank bs p b1 _ H Hb1 Hhead).
   pose proof (at_app _ _ _ _ H) as H1.
@@ -670,25 +707,24 @@ Proof.
 Qed.
 
 Lemma render_select_layout ind sel vs cs :
-  sel_ok sel = true -> forallb (variant_ok eok) vs = true -> vs <> [] ->
+  bsel sel = true -> forallb (variant_ok eok) vs = true -> vs <> [] ->
   exists X cs', render_expr ind (Select sel vs) cs = (X, cs') /\ select_layout (ml_value_layout etext) (Select sel vs) X.
 Proof.
   intros Hsel Hvs Hne. rewrite render_expr_select.
-  assert (Hsi : simple_inline sel = true) by (destruct sel; try discriminate Hsel; exact Hsel).
-  rewrite (rbind_eq _ _ _ _ _ (render_inline_simple sel cs Hsi)).
-  destruct (blank_opt_spec cs) as [b1 [cs1 [E1 Hb1]]]. rewrite (rbind_eq _ _ _ _ _ E1).
+  destruct (render_bsel sel cs Hsel) as (Xs & cs0 & E0 & HXs). rewrite (rbind_eq _ _ _ _ _ E0).
+  destruct (blank_opt_spec cs0) as [b1 [cs1 [E1 Hb1]]]. rewrite (rbind_eq _ _ _ _ _ E1).
   destruct (blank_inline_opt_spec cs1) as [j [cs2 E2]]. rewrite (rbind_eq _ _ _ _ _ E2).
   destruct (eol_spec' cs2) as [x0 [cs3 [E3 Hx0]]]. rewrite (rbind_eq _ _ _ _ _ E3).
   destruct (render_variants_layout ind vs cs3 Hvs Hne) as (out & cs4 & E4 & Hout). rewrite (rbind_eq _ _ _ _ _ E4).
   unfold rbind at 1. destruct (choose 3 cs4) as [k cs5].
   destruct (Hout (sp k) (all_blank_sp k)) as (W0 & VS & EW & HW0 & HVS).
   eexists. exists cs5. split; [reflexivity|].
-  set (b1' := match b1 with [] => if ends_with_id_char (inline_text sel) then sp 1 else [] | _ => b1 end).
+  set (b1' := match b1 with [] => if ends_with_id_char Xs then sp 1 else [] | _ => b1 end).
   unfold cat. cbn [concat]. rewrite app_nil_r.
-  replace (inline_text sel ++ b1' ++ [45; 62]%N ++ sp j ++ x0 ++ out ++ sp k)
-    with (inline_text sel ++ b1' ++ [45; 62]%N ++ sp j ++ x0 ++ W0 ++ VS) by (rewrite <- EW; reflexivity).
+  replace (Xs ++ b1' ++ [45; 62]%N ++ sp j ++ x0 ++ out ++ sp k)
+    with (Xs ++ b1' ++ [45; 62]%N ++ sp j ++ x0 ++ W0 ++ VS) by (rewrite <- EW; reflexivity).
   apply sell; try assumption.
-  - unfold b1'. destruct b1; [destruct (ends_with_id_char (inline_text sel)); [apply all_blank_sp | reflexivity] | exact Hb1].
+  - unfold b1'. destruct b1; [destruct (ends_with_id_char Xs); [apply all_blank_sp | reflexivity] | exact Hb1].
   - unfold b1'. intros Hid. destruct b1; [rewrite Hid; discriminate | discriminate].
 Qed.
 
@@ -725,20 +761,49 @@ Definition place_fact (d : nat) : Prop := forall bs e X b1 b2 rest p n,
 Lemma render_fact0 base e cs : eok0 e = true -> exists X cs', render_expr base e cs = (X, cs') /\ etext0 e X.
 Proof.
   destruct e as [sel vs | i]; [discriminate|]. cbn [eok0]. intros Hi.
-  exists (inline_text i), cs. split; [apply (render_inline_simple i cs Hi) | constructor; exact Hi].
+  destruct (render_binline i cs Hi) as (X & cs' & E & HX). exists X, cs'. split; [exact E | constructor; assumption].
 Qed.
 
 Lemma join_fact0 e : eok0 e = true -> join_expr e = e.
 Proof.
   destruct e as [sel vs | i]; [discriminate|]. cbn [eok0]. intros Hi.
-  change (join_expr (Inline i)) with (Inline (join_inline i)). rewrite (simple_inline_join i Hi). reflexivity.
+  change (join_expr (Inline i)) with (Inline (join_inline i)). rewrite (join_binline i Hi). reflexivity.
 Qed.
 
 Lemma wf_fact0 e : eok0 e = true -> wf_expr e = true /\ lines_ok_expr e = true.
-Proof. destruct e as [sel vs | i]; [discriminate|]. cbn [eok0]. intros Hi. apply (simple_inline_wf i Hi). Qed.
+Proof. destruct e as [sel vs | i]; [discriminate|]. cbn [eok0]. intros Hi. apply (wf_binline i Hi). Qed.
+
+Lemma itext_len i X : itext i X -> 1 <= length X -> True.
+Proof. auto. Qed.
 
 Lemma place_fact0 bs e X b1 b2 rest p n :
   eok0 e = true -> etext0 e X -> all_blank b1 -> all_blank b2 ->
+  at_ bs p (b1 ++ X ++ b2 ++ 125%N :: rest) -> 3 * length (b1 ++ X ++ b2 ++ 125%N :: rest) + 8 <= n ->
+  exists e', get_placeable bs n p = Ok e' (S (length (b1 ++ X ++ b2) + p)) /\ join_expr e' = join_expr e /\ goodd 0 e'.
+Proof.
+  intros _ HX Hb1 Hb2 H Hn. destruct HX as [i X Hi HX]. exists (Inline i). split; [|split; [reflexivity | exact Logic.I]].
+  apply (get_placeable_binline bs i X b1 b2 rest p n Hi HX Hb1 Hb2 H).
+  rewrite !app_length in Hn. cbn [length] in Hn. lia.
+Qed.
+
+(* ---- the simple inline expressions only (for SerializerML.v) ---- *)
+Lemma render_facts base e cs : eoks e = true -> exists X cs', render_expr base e cs = (X, cs') /\ etexts e X.
+Proof.
+  destruct e as [sel vs | i]; [discriminate|]. cbn [eoks]. intros Hi.
+  exists (inline_text i), cs. split; [apply (render_inline_simple i cs Hi) | constructor; exact Hi].
+Qed.
+
+Lemma join_facts e : eoks e = true -> join_expr e = e.
+Proof.
+  destruct e as [sel vs | i]; [discriminate|]. cbn [eoks]. intros Hi.
+  change (join_expr (Inline i)) with (Inline (join_inline i)). rewrite (simple_inline_join i Hi). reflexivity.
+Qed.
+
+Lemma wf_facts e : eoks e = true -> wf_expr e = true /\ lines_ok_expr e = true.
+Proof. destruct e as [sel vs | i]; [discriminate|]. cbn [eoks]. intros Hi. apply (simple_inline_wf i Hi). Qed.
+
+Lemma place_facts bs e X b1 b2 rest p n :
+  eoks e = true -> etexts e X -> all_blank b1 -> all_blank b2 ->
   at_ bs p (b1 ++ X ++ b2 ++ 125%N :: rest) -> 3 * length (b1 ++ X ++ b2 ++ 125%N :: rest) + 8 <= n ->
   exists e', get_placeable bs n p = Ok e' (S (length (b1 ++ X ++ b2) + p)) /\ join_expr e' = join_expr e /\ goodd 0 e'.
 Proof.
@@ -776,18 +841,12 @@ Lemma sel_ok_simple sel : sel_ok sel = true -> simple_inline sel = true.
 Proof. destruct sel; try discriminate; exact (fun H => H). Qed.
 
 Lemma wf_select sel vs :
-  sel_ok sel = true -> count_defaults vs = 1 ->
+  bsel sel = true -> count_defaults vs = 1 ->
   Forall (fun v => match v with Variant k p _ => key_ok k = true /\ wf_value p = true end) vs ->
   wf_expr (Select sel vs) = true /\ lines_ok_expr (Select sel vs) = true.
 Proof.
-  intros Hsel Hcnt Hvs. destruct (simple_inline_wf sel (sel_ok_simple sel Hsel)) as [W1 W2].
-  assert (W1' : wf_inline sel = true) by (destruct sel; try discriminate Hsel; exact W1).
-  cbn [wf_expr lines_ok_expr]. rewrite W1', W2, Hcnt. cbn [Nat.eqb andb].
-  replace (match sel with
-           | StringLiteral _ | NumberLiteral _ | VariableReference _ | FunctionReference _ _ => true
-           | TermReference _ (Some _) _ => true
-           | _ => false
-           end) with true by (destruct sel; try discriminate Hsel; reflexivity).
+  intros Hsel Hcnt Hvs. destruct (wf_bsel sel Hsel) as (W1' & W2 & Wk).
+  cbn [wf_expr lines_ok_expr]. rewrite W1', W2, Hcnt, Wk. cbn [Nat.eqb andb].
   cbn [andb]. clear Hcnt. split.
   - induction Hvs as [|v r Hv Hr IH]; [reflexivity|]. destruct v as [k p d0]. destruct Hv as [Hk Hp].
     unfold wf_value in Hp. apply andb_prop in Hp as [Hp _]. cbn [wf_variant]. 
@@ -800,9 +859,9 @@ Qed.
 
 (* ---- the step ---- *)
 Lemma eokd_S_cases d e : eokd (S d) e = true ->
-  (exists i, e = Inline i /\ simple_inline i = true) \/
+  (exists i, e = Inline i /\ binline i = true) \/
   (exists e1, e = Inline (Placeable e1) /\ eokd d e1 = true) \/
-  (exists sel vs, e = Select sel vs /\ sel_ok sel = true /\ count_defaults vs = 1 /\ forallb (variant_ok (eokd d)) vs = true).
+  (exists sel vs, e = Select sel vs /\ bsel sel = true /\ count_defaults vs = 1 /\ forallb (variant_ok (eokd d)) vs = true).
 Proof.
   destruct e as [sel vs | i]; cbn [eokd].
   - intros H. apply andb_prop in H as [H Hvs]. apply andb_prop in H as [Hsel Hcnt]. apply Nat.eqb_eq in Hcnt.
@@ -834,7 +893,7 @@ Proof.
     split; [|split; [|split]].
     + (* render *)
       intros base e cs He. destruct (eokd_S_cases d e He) as [(i & -> & Hi) | [(e1 & -> & He1) | (sel & vs & -> & Hsel & Hcnt & Hvs)]].
-      * exists (inline_text i), cs. split; [apply (render_inline_simple i cs Hi) | left; constructor; exact Hi].
+      * destruct (render_binline i cs Hi) as (X & cs' & E & HX). exists X, cs'. split; [exact E | left; constructor; assumption].
       * change (render_expr base (Inline (Placeable e1)) cs) with
           ((b1 <~ blank_opt ;; s <~ render_expr 4 e1 ;; b2 <~ blank_opt ;; rret (cat [[123%N]; b1; s; b2; [125%N]])) cs).
         destruct (blank_opt_spec cs) as [b1 [cs1 [E1 Hb1]]]. rewrite (rbind_eq _ _ _ _ _ E1).
@@ -848,12 +907,12 @@ Proof.
         exists X, cs'. split; [exact E | right; right; exact HX].
     + (* joined form *)
       intros e He. destruct (eokd_S_cases d e He) as [(i & -> & Hi) | [(e1 & -> & He1) | (sel & vs & -> & Hsel & Hcnt & Hvs)]].
-      * change (join_expr (Inline i)) with (Inline (join_inline i)). rewrite (simple_inline_join i Hi). reflexivity.
+      * change (join_expr (Inline i)) with (Inline (join_inline i)). rewrite (join_binline i Hi). reflexivity.
       * change (join_expr (Inline (Placeable e1))) with (Inline (Placeable (join_expr e1))). rewrite (J e1 He1). reflexivity.
-      * rewrite join_expr_select, (simple_inline_join sel (sel_ok_simple sel Hsel)), (variants_join (eokd d) vs J Hvs). reflexivity.
+      * rewrite join_expr_select, (join_bsel sel Hsel), (variants_join (eokd d) vs J Hvs). reflexivity.
     + (* well-formed *)
       intros e He. destruct (eokd_S_cases d e He) as [(i & -> & Hi) | [(e1 & -> & He1) | (sel & vs & -> & Hsel & Hcnt & Hvs)]].
-      * apply (simple_inline_wf i Hi).
+      * apply (wf_binline i Hi).
       * destruct (W e1 He1) as [W1 W2]. split; [exact W1 | exact W2].
       * apply (wf_select sel vs Hsel Hcnt). rewrite forallb_forall in Hvs. apply Forall_forall. intros v Hv.
         specialize (Hvs v Hv). destruct v as [k [els] d0]. unfold variant_ok in Hvs. apply andb_prop in Hvs as [Hk Hp].
@@ -861,17 +920,19 @@ Proof.
     + (* get_placeable *)
       intros bs e X b1 b2 rest p n He HX Hb1 Hb2 H Hn.
       destruct (eokd_S_cases d e He) as [(i & -> & Hi) | [(e1 & -> & He1) | (sel & vs & -> & Hsel & Hcnt & Hvs)]].
-      * assert (HX0 : etext0 (Inline i) X).
+      * assert (Hnp : forall e1, i <> Placeable e1) by (intros e1 ->; discriminate Hi).
+        assert (HX0 : etext0 (Inline i) X).
         { destruct HX as [HX | [(e1 & c1 & c2 & X1 & E & _) | HX]]; [exact HX | | inversion HX].
-          injection E as ->. discriminate Hi. }
+          exfalso. injection E. intros E'. apply (Hnp e1 E'). }
         destruct (place_fact0 bs (Inline i) X b1 b2 rest p n Hi HX0 Hb1 Hb2 H Hn) as (e' & E & Ej & _).
         exists e'. split; [exact E | split; [exact Ej|]].
         assert (Ee : e' = Inline i).
-        { destruct HX0 as [i0 Hi0]. rewrite (get_placeable_simple bs i0 b1 b2 rest p n Hi0 Hb1 Hb2 H ltac:(rewrite !app_length in Hn; lia)) in E.
-          injection E as <- _. reflexivity. }
-        rewrite Ee. cbn [goodd]. destruct i; try exact Logic.I. discriminate Hi.
+        { inversion HX0 as [i0 X0 Hi0 HX0' E1 E2]; subst.
+          rewrite (get_placeable_binline bs i X b1 b2 rest p n Hi0 HX0' Hb1 Hb2 H ltac:(rewrite !app_length in Hn; cbn [length] in Hn; lia)) in E.
+          injection E as E'. symmetry. exact E'. }
+        rewrite Ee. cbn [goodd]. destruct i; try exact Logic.I. exfalso. apply (Hnp _ eq_refl).
       * assert (HXn : exists c1 c2 X1, all_blank c1 /\ all_blank c2 /\ etextd d e1 X1 /\ X = 123%N :: c1 ++ X1 ++ c2 ++ [125%N]).
-        { destruct HX as [HX | [(e1' & c1 & c2 & X1 & E & Hc1 & Hc2 & HX1 & EX) | HX]]; [inversion HX; subst; discriminate | | inversion HX].
+        { destruct HX as [HX | [(e1' & c1 & c2 & X1 & E & Hc1 & Hc2 & HX1 & EX) | HX]]; [inversion HX as [i0 X0 Hi0 _ E1 E2]; subst; discriminate Hi0 | | inversion HX].
           injection E as <-. exists c1, c2, X1. auto. }
         destruct HXn as (c1 & c2 & X1 & Hc1 & Hc2 & HX1 & ->).
         destruct n as [|[|[|n]]]; try lia.
@@ -945,7 +1006,7 @@ Proof.
     + cbn [eokd]. destruct i; try exact Hi. discriminate Hi.
     + change (eokd (S (S d)) (Inline (Placeable e1))) with (eokd (S d) e1). apply IH, He1.
     + change (eokd (S (S d)) (Select sel vs)) with
-        (sel_ok sel && Nat.eqb (count_defaults vs) 1 && forallb (variant_ok (eokd (S d))) vs).
+        (bsel sel && Nat.eqb (count_defaults vs) 1 && forallb (variant_ok (eokd (S d))) vs).
       rewrite Hsel, Hcnt. cbn [Nat.eqb andb]. rewrite forallb_forall in *. intros v Hv. specialize (Hvs v Hv).
       destruct v as [k p d0]. unfold variant_ok in *. apply andb_prop in Hvs as [Hk Hp].
       rewrite Hk, (ml_pattern_mono (eokd d) (eokd (S d)) p IH Hp). reflexivity.
@@ -979,18 +1040,22 @@ Proof.
   unfold ml_line. unfold text_line in Hline. rewrite Hline, Hsc. destruct v; [congruence | reflexivity].
 Qed.
 
+Section SimpleIn.
+Variable eok : expression -> bool.
+Hypothesis Heok : forall i, simple_inline i = true -> eok (Inline i) = true.
+
 Lemma simple_elements_ml els : forall prev, simple_elements els prev = true ->
-  ml_elements eok0 els prev = true /\ has_lf els = false.
+  ml_elements eok els prev = true /\ has_lf els = false.
 Proof.
   induction els as [|el r IH]; intros prev Hs; [split; reflexivity|].
-  destruct el as [v | [sel vs | i]]; cbn [simple_elements] in Hs; try discriminate Hs; cbn [ml_elements has_lf existsb eok0].
+  destruct el as [v | [sel vs | i]]; cbn [simple_elements] in Hs; try discriminate Hs; cbn [ml_elements has_lf existsb].
   - apply andb_prop in Hs as [Hs Hr]. apply andb_prop in Hs as [Hp Hv]. destruct (IH true Hr) as [I1 I2].
     destruct (inner_text_ml (match r with [] => false | _ => true end) v Hv) as [M1 M2].
     rewrite Hp, M1, I1, M2. split; [reflexivity | exact I2].
-  - apply andb_prop in Hs as [Hi Hr]. destruct (IH false Hr) as [I1 I2]. rewrite Hi, I1. split; [reflexivity | exact I2].
+  - apply andb_prop in Hs as [Hi Hr]. destruct (IH false Hr) as [I1 I2]. rewrite (Heok i Hi), I1. split; [reflexivity | exact I2].
 Qed.
 
-Lemma simple_pattern_ml p : simple_pattern p = true -> ml_pattern eok0 p = true.
+Lemma simple_pattern_ml p : simple_pattern p = true -> ml_pattern eok p = true.
 Proof.
   intros H. destruct (simple_pattern_spec p H) as [els [-> Hp]].
   destruct (simple_pattern_parts els Hp) as (Hne & Hs & Hf & Hl).
@@ -1019,12 +1084,12 @@ Proof.
   rewrite H1, H2. destruct els; [congruence | reflexivity].
 Qed.
 
-Theorem simple_resource_ml t : simple_resource t = true -> ml_resource eok0 t = true.
+Theorem simple_resource_ml t : simple_resource t = true -> ml_resource eok t = true.
 Proof.
-  assert (Ha : forall attrs, forallb simple_attribute attrs = true -> forallb (ml_attribute eok0) attrs = true).
+  assert (Ha : forall attrs, forallb simple_attribute attrs = true -> forallb (ml_attribute eok) attrs = true).
   { intros attrs. rewrite !forallb_forall. intros H a Hin. specialize (H a Hin). unfold simple_attribute in H.
     apply andb_prop in H as [Hid Hp]. unfold ml_attribute. rewrite Hid, (simple_pattern_ml _ Hp). reflexivity. }
-  assert (Hpe : forall e, plain_entry e = true -> ml_plain_entry eok0 e = true).
+  assert (Hpe : forall e, plain_entry e = true -> ml_plain_entry eok e = true).
   { intros e. destruct e as [id [p|] attrs [|]|id p attrs [|]|c|c|c|]; try discriminate; cbn [plain_entry ml_plain_entry];
       intros H; try exact H.
     all: apply andb_prop in H as [H Hattrs]; apply andb_prop in H as [Hid Hp];
@@ -1033,5 +1098,7 @@ Proof.
   unfold simple_entry in H. apply andb_prop in H as [H1 H2]. unfold ml_entry. rewrite (Hpe _ H1), H2. reflexivity.
 Qed.
 
+End SimpleIn.
+
 Theorem simple_resource_sel t : simple_resource t = true -> sel_resource 0 t = true.
-Proof. exact (simple_resource_ml t). Qed.
+Proof. apply (simple_resource_ml eok0). intros i Hi. apply (simple_binline i Hi). Qed.
